@@ -58,7 +58,9 @@ RULE = ("exhaustive well-formed signatures over names {a,b,c}, 5 kinds, default 
         "the same signatures as instance / class / static methods of a class (calls through K().f / K.f); functions whose Parameters container "
         "was edited before the comparison (histories of setitem by index/name, delitem, add, incl. failing operations, that keep a legal signature); "
         "methods a public class only inherits (private base, two levels, swapped base) and constructors synthesised for dataclasses whose fields "
-        "change, loaded from files with griffe.load -- the dataclass pairs independently and with one load_extensions() object for both loads. "
+        "change, loaded from files with griffe.load -- the dataclass pairs independently and with one load_extensions() object for both loads; "
+        "facade packages (pkg + private sibling _pkg / private module; re-exports in __init__ or only in a submodule, targets not public where "
+        "defined, methods inherited from a base in the sibling) loaded as `griffe check` loads (resolve_aliases=True, resolve_external=None). "
         "A pair is non-trivial when some call binds old and not new, or something is reported, or a default changed; distinct by (old,new) source text")
 TRUSTED = ["translator harness/translate/c10_tables.py (whitelisted AST shapes of diff.py / expressions.py; fails closed)",
            "abstraction python ast -> model default tree (harness/props/c10.py:abstract), checked injective w.r.t. ast.dump on every explored pair"]
@@ -225,10 +227,12 @@ def package_files(sig, where):
     if where == "target-unlisted":
         return {"pkg/_core.py": "__all__ = ['g']\n\n\ndef g(): pass\n\n\n" + d, "pkg/__init__.py": "from pkg._core import f\n\n__all__ = ['f']"}
     if where == "inherited-from-sibling":
-        return {"_pkg/__init__.py": "class Base:\n    " + d, "pkg/__init__.py": "from _pkg import Base\n\n__all__ = ['K']\n\n\nclass K(Base):\n    pass"}
+        # (an exported name from the sibling makes `griffe check` load it; without one the base stays unresolvable: see asbuilt)
+        return {"_pkg/__init__.py": "def helper(): pass\n\n\nclass Base:\n    " + d,
+                "pkg/__init__.py": "from _pkg import Base, helper\n\n__all__ = ['K', 'helper']\n\n\nclass K(Base):\n    pass"}
     if where == "inherited-from-sibling-module":
-        return {"_pkg/__init__.py": "", "_pkg/base.py": "class Base:\n    " + d,
-                "pkg/__init__.py": "from _pkg.base import Base\n\n__all__ = ['K']\n\n\nclass K(Base):\n    pass"}
+        return {"_pkg/__init__.py": "", "_pkg/base.py": "class Base:\n    " + d, "_pkg/util.py": "def helper(): pass",
+                "pkg/__init__.py": "from _pkg.base import Base\nfrom _pkg.util import helper\n\n__all__ = ['K', 'helper']\n\n\nclass K(Base):\n    pass"}
     raise ValueError(where)
 
 
